@@ -500,6 +500,7 @@ void Sim::mk(const Cg& c) {
   if (::stat(dir.c_str(), &stt) == 0) {
     ever_[stt.st_ino] = c.path;
     everX_[stt.st_ino] = c.xattrs;
+    if (g.virt_ino) g.virtRegister(c.path, stt.st_ino);
   }
   for (auto& kv : c.xattrs) {
     if (::setxattr(dir.c_str(), kv.first.c_str(), kv.second.data(), kv.second.size(), 0) != 0) {
@@ -647,7 +648,7 @@ uint64_t Sim::inode(const std::string& path) const {
   struct stat st;
   std::string dir = cgroot_ + (path.empty() ? "" : "/" + path);
   if (::stat(dir.c_str(), &st) != 0) return 0;
-  return st.st_ino;
+  return g.virtOf(st.st_ino);
 }
 
 std::optional<std::string> Sim::getx(const std::string& path, const std::string& name) const {
